@@ -65,7 +65,7 @@ Proof.
   rewrite conn_map2_length, map_length, (Hb bv eq_refl). lia.
 Qed.
 
-Theorem dense_forward_sample c x y b : dense_sized c -> b < d_B N c ->
+Theorem c05_dense_forward_sample c x y b : dense_sized c -> b < d_B N c ->
   dense_forward N c x = Ok y ->
   exists rest, tshape x = d_B N c :: rest /\
     dense_forward N (dense_B c 1) (mkT (1 :: rest) (samp (prodn (d_in N c)) b (tdata x)))
@@ -82,7 +82,7 @@ Qed.
 
 (* ---------- LinearLateral: forward is LinearDense's on the masked parameters ---------- *)
 Definition lat_B (s : lat N) (B : nat) : lat N := mkLat N (l_shape N s) B (l_w N s) (l_d N s) (l_b N s).
-Theorem lat_forward_sample s x y b :
+Theorem c05_lat_forward_sample s x y b :
   length (l_w N s) = prodn (l_shape N s) -> (forall bv, l_b N s = Some bv -> length bv = prodn (l_shape N s)) ->
   b < l_B N s -> lat_forward N s x = Ok y ->
   exists rest, tshape x = l_B N s :: rest /\
@@ -90,7 +90,7 @@ Theorem lat_forward_sample s x y b :
     = Ok (mkT (view_shape (1 * prodn (l_shape N s)) (l_shape N s)) (samp (prodn (l_shape N s)) b (tdata y))).
 Proof.
   intros HW Hbias Hb H. unfold lat_forward in *.
-  exact (dense_forward_sample (mkDense N (l_shape N s) (l_shape N s) (l_B N s) (l_w N s) (l_b N s)) x y b
+  exact (c05_dense_forward_sample (mkDense N (l_shape N s) (l_shape N s) (l_B N s) (l_w N s) (l_b N s)) x y b
            (conj HW Hbias) Hb H).
 Qed.
 
@@ -99,7 +99,7 @@ Definition direct_B (c : direct N) (B : nat) : direct N := mkDirect N (r_shape N
 Definition direct_sized (c : direct N) : Prop :=
   length (r_w N c) = prodn (r_shape N c) /\ (forall bv, r_b N c = Some bv -> length bv = prodn (r_shape N c)).
 
-Theorem direct_forward_sample c x y b : direct_sized c -> b < r_B N c ->
+Theorem c05_direct_forward_sample c x y b : direct_sized c -> b < r_B N c ->
   length (tdata x) = prodn (tshape x) ->                 (* x is a tensor: as many values as its shape says *)
   direct_forward N c x = Ok y ->
   exists rest, tshape x = r_B N c :: rest /\
@@ -123,7 +123,7 @@ Qed.
 
 (* ---------- Conv2D: the model maps a per-image function over the batch (definitional) ---------- *)
 Definition conv_B (c : conv N) (B : nat) : conv N := mkConv N (c_g N c) B (c_w N c) (c_b N c).
-Theorem conv_forward_sample c xshape xs ys b : b < length xs ->
+Theorem c05_conv_forward_sample c xshape xs ys b : b < length xs ->
   conv_forward N c xshape xs = Ok ys ->
   conv_forward N (conv_B c 1) (1 :: tl xshape) [nth b xs []] = Ok [nth b ys []].
 Proof.
